@@ -134,3 +134,39 @@ Definition predict_section (w spl spr : Z) (cols : list colspec) : list (Z * Z) 
                 (* calculateEffectiveContentWidth starts from the ROUNDED pixel string of GetWidthAsPixel *)
                 let colpx := col_mso_px inner wd in
                 (colpx, fill_width (col_content colpx (cpl c) (cpr c)) (ipl c) (ipr c) (ibw c))) cols.
+
+(* ---- a group of automatic columns inside a section (group.Render) ----
+   group box: pixels as written, or int(inner * percent / 100), or the whole content box; every column's Outlook cell is
+   int(group / n); a column resolves its own (automatic) percentage 100/n against the GROUP's box, rounding to the nearest pixel
+   (also in a pixel group: the cell is the truncated share, the column's working width the rounded one) *)
+Definition group_px (inner : Z) (gw : option width) : Z := match gw with None => inner | Some x => col_int_px inner x end.
+Definition group_col_px (g n : Z) : Z := col_mso_px g (auto_width n).
+Definition predict_group (inner : Z) (gw : option width) (cols : list colspec) : Z * list (Z * Z) :=
+  let g := group_px inner gw in
+  let n := Z.of_nat (length cols) in
+  (g, map (fun c => (g / n, fill_width (col_content (group_col_px g n) (cpl c) (cpr c)) (ipl c) (ipr c) (ibw c))) cols).
+
+(* a percentage group is never wider than the section's content box *)
+Theorem group_le_inner inner p : 0 <= inner -> 0 < den p -> 0 <= num p -> num p <= 100 * den p -> group_px inner (Some (Pct p)) <= inner.
+Proof. exact (col_int_le_inner inner p). Qed.
+(* the n Outlook cells of a group fit into the group's box *)
+Theorem group_cells_fit g n : 0 <= g -> 0 < n -> n * (g / n) <= g.
+Proof. intros Hg Hn. apply Z.mul_div_le. lia. Qed.
+(* the width a column of a group works with is the group's box divided by n, to the nearest pixel: its content (images, dividers)
+   is sized against the group, never against the enclosing section *)
+Theorem group_col_close g n : 0 <= g -> 0 < n -> 2 * Z.abs (n * group_col_px g n - g) <= n.
+Proof.
+  intros Hg Hn. unfold group_col_px.
+  pose proof (rhe_close (g * 100) (n * 100) ltac:(lia) ltac:(lia)) as C. cbn [col_mso_px auto_width num den]. lia.
+Qed.
+(* whatever the paddings, an image or divider of a group column is at most one pixel wider than the column's Outlook cell *)
+Theorem group_fill_le_cell g n c : 0 <= g -> 0 < n -> 0 <= cpl c -> 0 <= cpr c -> 0 <= ipl c -> 0 <= ipr c -> 0 <= ibw c ->
+  fill_width (col_content (group_col_px g n) (cpl c) (cpr c)) (ipl c) (ipr c) (ibw c) <= g / n + 1.
+Proof.
+  intros Hg Hn H1 H2 H3 H4 H5.
+  pose proof (fill_width_le (col_content (group_col_px g n) (cpl c) (cpr c)) (ipl c) (ipr c) (ibw c) H3 H4 H5) as A.
+  pose proof (col_content_le (group_col_px g n) (cpl c) (cpr c) H1 H2) as B.
+  pose proof (group_col_close g n Hg Hn) as C.
+  pose proof (Z.div_mod g n ltac:(lia)) as E. pose proof (Z.mod_pos_bound g n Hn) as M.
+  assert (group_col_px g n <= g / n + 1) by nia. lia.
+Qed.
